@@ -51,15 +51,29 @@ Definition env_new_alloc (h : handle) (t r c f : Z) : env :=
 Definition lift (o : outcome) : cout := match o with Refuse v r => CRefused v r | _ => CPass end.
 
 (* ------------------------------------------------------------------ vnacal_new_set_frequency_vector *)
-(* fv = the vn_frequencies entries the C code reads *)
-Definition env_set_fv (h : handle) (s : nsum) (fv : option (list dval)) (ranges_bad : bool) : env :=
+(* fv = the vn_frequencies entries the C code reads; inforce = vn_frequency_vector as it is (the vector given last) *)
+Definition dne (a b : dval) : bool :=                    (* C's a != b on doubles *)
+  match a, b with Some x, Some y => negb (Qeq_bool x y) | _, _ => true end.
+Definition dvec_differs (l inforce : list dval) : bool := existsb (fun p => dne (fst p) (snd p)) (combine l inforce).
+Definition env_set_fv (h : handle) (s : nsum) (inforce : list dval) (fv : option (list dval)) (ranges_bad : bool) : env :=
   let l := match fv with Some l => l | None => [] end in
   lookup (vnp_vars h ++
           [("frequency_vector", optnull fv); ("vnp->vn_frequencies", VInt (v_freqs s));
            ("atom:fv_has_nan_or_negative", bval (existsb (fun x => dnan x || dlt x d0) l));
            ("atom:fv_has_nan_inf_or_negative", bval (existsb (fun x => dnan x || dlt x d0) l));   (* no infinities in a dval *)
            ("atom:fv_not_ascending", bval (adjacent_ge l));
-           ("atom:parameter_ranges_bad", bval ranges_bad)]).
+           ("atom:parameter_ranges_bad", bval ranges_bad);
+           ("atom:fv_changes_under_m_error", bval (v_merror s && dvec_differs l inforce))]).
+
+(* does the C text refuse to change the frequencies under a measurement error model (fix DM90)? *)
+Definition gen_fv_tests_m_error : bool :=
+  Eval vm_compute in contract_mentions "atom:fv_changes_under_m_error" gen_contract_vnacal_new_set_frequency_vector.
+(* check_set_fv of NewModel.v followed by that test *)
+Definition check_set_fv2 (guard : bool) (s : nsum) (inforce : list dval) (fv : option (list dval)) (ranges_bad : bool) : outcome :=
+  match check_set_fv s fv ranges_bad with
+  | Pass => if guard && v_merror s && dvec_differs (match fv with Some l => l | None => [] end) inforce then usage1 else Pass
+  | o => o
+  end.
 
 (* ------------------------------------------------------------------ scalar setters, set_z0, solve *)
 Definition env_dbl (h : handle) (name : string) (x : dval) : env := lookup (vnp_vars h ++ [(name, VDbl x)]).
@@ -341,19 +355,30 @@ Fixpoint xascending (l : list xd) : bool :=         (* strictly ascending *)
   end.
 
 (* vnacal_new_set_frequency_vector over such vectors: both generations of the first loop's atom *)
-Definition env_set_fv_x (h : handle) (s : nsum) (fv : option (list xd)) (ranges_bad : bool) : env :=
+Definition xne (a b : xd) : bool :=
+  match a, b with
+  | XFin x, XFin y => negb (Qeq_bool x y)
+  | XInf n, XInf m => negb (Bool.eqb n m)
+  | _, _ => true
+  end.
+Definition xvec_differs (l inforce : list xd) : bool := existsb (fun p => xne (fst p) (snd p)) (combine l inforce).
+Definition env_set_fv_x (h : handle) (s : nsum) (inforce : list xd) (fv : option (list xd)) (ranges_bad : bool) : env :=
   let l := olist fv in
   lookup (vnp_vars h ++
           [("frequency_vector", optnull fv); ("vnp->vn_frequencies", VInt (v_freqs s));
            ("atom:fv_has_nan_or_negative", bval (existsb (fun x => xnan x || xlt x x0) l));
            ("atom:fv_has_nan_inf_or_negative", bval (existsb (fun x => xnan x || xinf x || xlt x x0) l));
            ("atom:fv_not_ascending", bval (xadjacent_ge l));
-           ("atom:parameter_ranges_bad", bval ranges_bad)]).
-(* vnacal_new(3): "vector of increasing frequencies": finite, non-negative, strictly ascending *)
-Definition doc_set_fv (s : nsum) (fv : option (list xd)) (ranges_bad : bool) : cout :=
+           ("atom:parameter_ranges_bad", bval ranges_bad);
+           ("atom:fv_changes_under_m_error", bval (v_merror s && xvec_differs l inforce))]).
+(* vnacal_new(3): "vector of increasing frequencies": finite, non-negative, strictly ascending; "vnacal_new_set_frequency_vector
+   must be called before vnacal_new_set_m_error": once an error model is set the frequencies cannot be changed (giving the
+   vector in force again changes nothing and is accepted) *)
+Definition doc_set_fv (s : nsum) (inforce : list xd) (fv : option (list xd)) (ranges_bad : bool) : cout :=
   match fv with
   | None => CRefused VM1 (Via USAGE)
-  | Some l => if forallb xfreq_ok l && xascending l && negb ((0 <? v_freqs s) && ranges_bad) then CPass
+  | Some l => if forallb xfreq_ok l && xascending l && negb ((0 <? v_freqs s) && ranges_bad) &&
+                 negb (v_merror s && xvec_differs l inforce) then CPass
               else CRefused VM1 (Via USAGE)
   end.
 
@@ -437,7 +462,8 @@ Definition code_set_m_error (f92 f94 : bool) (s : nsum) (a : merr_xargs) : mdec 
 (* ------------------------------------------------------------------ the settings of a vnacal_new_t as a machine *)
 Record n2sum : Type := mkn2 {
   n2_sum : nsum;
-  n2_ptol : dval; n2_ettol : dval; n2_iter : Z; n2_pvalue : dval
+  n2_ptol : dval; n2_ettol : dval; n2_iter : Z; n2_pvalue : dval;
+  n2_fv : list dval            (* vn_frequency_vector: the vector given last *)
 }.
 Inductive n2call : Type :=
 | N2SetFv (h : handle) (fv : option (list dval)) (ranges_bad : bool)
@@ -462,7 +488,7 @@ Definition n2_contract (c : n2call) : list cstep :=
   end.
 Definition n2_env (c : n2call) (s : n2sum) : env :=
   match c with
-  | N2SetFv h fv rb => env_set_fv h (n2_sum s) fv rb
+  | N2SetFv h fv rb => env_set_fv h (n2_sum s) (n2_fv s) fv rb
   | N2SetZ0 h => env_int h "unused" 0
   | N2SetMError h a => env_set_m_error_x h (n2_sum s) a
   | N2SetPTol h x | N2SetEtTol h x => env_dbl h "tolerance" x
@@ -471,7 +497,7 @@ Definition n2_env (c : n2call) (s : n2sum) : env :=
   | N2Solve h _ => env_solve h (n2_sum s)
   end.
 Definition with_sum (s : n2sum) (f : nsum -> nsum) : n2sum :=
-  mkn2 (f (n2_sum s)) (n2_ptol s) (n2_ettol s) (n2_iter s) (n2_pvalue s).
+  mkn2 (f (n2_sum s)) (n2_ptol s) (n2_ettol s) (n2_iter s) (n2_pvalue s) (n2_fv s).
 Definition set_fvalid (s : nsum) : nsum :=
   mknsum (v_type s) (v_rows s) (v_cols s) (v_freqs s) true (v_merror s) (v_params s).
 Definition set_merror (b : bool) (s : nsum) : nsum :=
@@ -479,13 +505,13 @@ Definition set_merror (b : bool) (s : nsum) : nsum :=
 (* what the working steps of the call store (the summary only; vectors are outside it) *)
 Definition n2_work (c : n2call) (i : nat) (s : n2sum) : n2sum * bool :=
   match c with
-  | N2SetFv _ _ _ => (with_sum s set_fvalid, false)
+  | N2SetFv _ fv _ => (mkn2 (set_fvalid (n2_sum s)) (n2_ptol s) (n2_ettol s) (n2_iter s) (n2_pvalue s) (olist fv), false)
   | N2SetZ0 _ => (s, false)
   | N2SetMError _ _ => (with_sum s (set_merror true), false)
-  | N2SetPTol _ x => (mkn2 (n2_sum s) x (n2_ettol s) (n2_iter s) (n2_pvalue s), false)
-  | N2SetEtTol _ x => (mkn2 (n2_sum s) (n2_ptol s) x (n2_iter s) (n2_pvalue s), false)
-  | N2SetIter _ n => (mkn2 (n2_sum s) (n2_ptol s) (n2_ettol s) n (n2_pvalue s), false)
-  | N2SetPvalue _ x => (mkn2 (n2_sum s) (n2_ptol s) (n2_ettol s) (n2_iter s) x, false)
+  | N2SetPTol _ x => (mkn2 (n2_sum s) x (n2_ettol s) (n2_iter s) (n2_pvalue s) (n2_fv s), false)
+  | N2SetEtTol _ x => (mkn2 (n2_sum s) (n2_ptol s) x (n2_iter s) (n2_pvalue s) (n2_fv s), false)
+  | N2SetIter _ n => (mkn2 (n2_sum s) (n2_ptol s) (n2_ettol s) n (n2_pvalue s) (n2_fv s), false)
+  | N2SetPvalue _ x => (mkn2 (n2_sum s) (n2_ptol s) (n2_ettol s) (n2_iter s) x (n2_fv s), false)
   | N2Solve _ fails => (s, fails)         (* the solved calibration is not part of this summary *)
   end.
 Definition n2_exit (c : n2call) (s : n2sum) : n2sum :=
